@@ -126,6 +126,9 @@ bool FilePersister::initialise(const f8String& dbDir, const f8String& dbFname, b
 			else if (blrd == 0)
 				break; // eof
 
+			if (iprec._seq == 0 && iprec._prec._size < 0)
+				continue; // reserved control record slot, no control record stored yet
+
 			if (iprec._seq == 0)
 			{
 				glout_info << iprec;
@@ -256,10 +259,21 @@ bool FilePersister::put(const unsigned seqnum, const f8String& what)
 		glout_error << "Error: seqnum " << seqnum << " already persisted in: " << _dbIname;
 		return false;
 	}
-	if (lseek(_iod, 0, SEEK_END) < 0)
+	const off_t ioffset(lseek(_iod, 0, SEEK_END));
+	if (ioffset < 0)
 	{
 		glout_error << "Error: could not seek to index end for seqnum persitence: " << _dbIname;
 		return false;
+	}
+	if (ioffset == 0)
+	{
+		// the first index record is the control record: reserve its slot so a later control put can't overwrite a message record
+		IPrec reserved(0, 0, -1);
+		if (write (_iod, static_cast<void *>(&reserved), sizeof(IPrec)) != sizeof(IPrec))
+		{
+			glout_error << "Error: could not reserve control record in: " << _dbIname;
+			return false;
+		}
 	}
 	off_t offset;
 	if ((offset = lseek(_fod, 0, SEEK_END)) < 0)
